@@ -241,7 +241,8 @@ def Impl.unguarded (fn : String) : List Loc :=
 
 /-! ## Spec: sequential cell store and witness search for linearizability -/
 
-/-- a write: (cell, value); cells and values are numbers chosen by the harness -/
+/-- a write: (key, value); keys and values are numbers chosen by the harness (two
+writes leaving the same observation on a key carry the same value number) -/
 abbrev Write := Nat × Nat
 
 /-- sequential execution: last writer wins -/
@@ -251,22 +252,24 @@ def Spec.exec (st : List (Nat × Nat)) : List Write → List (Nat × Nat)
 
 def Spec.get (st : List (Nat × Nat)) (c : Nat) : Option Nat := (st.find? (fun p => p.1 == c)).map (·.2)
 
-/-- is `(c,v)` still to be written by some thread other than thread `i`,
-or later by thread `i` itself? -/
-def pendingElsewhere (progs : List (List Write)) (i : Nat) (c : Nat) : Bool :=
+/-- does another thread than `i` still have a write to `c` with a value other than `v`? -/
+def pendingOther (progs : List (List Write)) (i : Nat) (c v : Nat) : Bool :=
   (List.zip (List.range progs.length) progs).any fun (j, p) =>
-    if j = i then (p.drop 1).any (fun w => w.1 == c) else p.any (fun w => w.1 == c)
+    j != i && p.any (fun w => w.1 == c && w.2 != v)
 
 /-- greedy topological scheduling: a thread's next write `(c,v)` may be
-scheduled unless it is the *final* value of `c` while other writes to `c` are
-still pending.  Returns the sequential order found (fuel = total number of writes). -/
+scheduled unless it is that thread's last write to `c`, `v` is the *final* value
+of `c`, and other threads still have writes of other values to `c` pending (the
+overall last write to `c` must carry the final value).  Returns the sequential
+order found (fuel = total number of writes). -/
 def Spec.schedule (final : List (Nat × Nat)) : Nat → List (List Write) → Option (List Write)
   | 0, progs => if progs.all (·.isEmpty) then some [] else none
   | n + 1, progs =>
     if progs.all (·.isEmpty) then some [] else
     let idx := (List.range progs.length).find? fun i =>
       match progs[i]? with
-      | some ((c, v) :: _) => !(Spec.get final c == some v) || !pendingElsewhere progs i c
+      | some ((c, v) :: rest) =>
+        rest.any (fun w => w.1 == c) || !(Spec.get final c == some v) || !pendingOther progs i c v
       | _ => false
     match idx with
     | none => none
